@@ -177,9 +177,9 @@ func (c *c16bConn) ExecContext(_ context.Context, q string, _ []driver.NamedValu
 type c16bEv struct {
 	G   int    `json:"g"`
 	Gap int    `json:"d,omitempty"` // quarter intervals (250 ms) since the previous event
-	K   string `json:"k"`           // insert | flush | uod | upd
+	K   string `json:"k"`           // insert | flush | uod | upd | updbad | insbad
 	N   int    `json:"n,omitempty"` // insert: number of consecutive rows
-	V   int    `json:"v,omitempty"` // upd: statement variant passed to UpdateStmt
+	V   int    `json:"v,omitempty"` // upd: statement variant passed to UpdateStmt; updbad: index into c16bMalformed; insbad: 0 too few, 1 too many arguments
 	Y   int    `json:"y,omitempty"`
 }
 
@@ -191,6 +191,18 @@ type c16bCase struct {
 	Alpha   int      `json:"alpha,omitempty"` // 0: fourth column is always 't'; else seed into c16bAlphabet
 	Handler bool     `json:"h,omitempty"`     // SetResultHandler
 	V0      int      `json:"v0,omitempty"`    // statement variant passed to NewBulkInserter
+	// BadNew-1: before the inserter of the case is built, NewBulkInserter is called with this malformed
+	// statement (no executor may come to life, nothing may panic; the returned values are not judged)
+	BadNew int `json:"badnew,omitempty"`
+}
+
+// c16bMalformed: statements parseInsertStmt refuses (no "values", no variables, column/variable count mismatch)
+var c16bMalformed = []string{
+	"insert into t (id, g, seq, txt) (?, ?, ?, ?)",
+	"insert into t (id, g, seq, txt) values (1, 2, 3, 'x')",
+	"insert into t (id, g, seq) values (?, ?, ?, ?)",
+	"values",
+	"",
 }
 
 type c16bRow struct {
@@ -369,6 +381,8 @@ func c16bInterp(t *testing.T, c c16bCase) (v kit.Verdict) {
 		}
 	}
 	U := c16bInterval / 4
+	unspecified := false // a malformed statement / a call with the wrong number of arguments was ACCEPTED: nothing is determined
+	var umu sync.Mutex
 	res := kit.Bubble(t, func() {
 		fake := &c16bFake{t0: time.Now(), lat: c.Lat, failAt: c.FailAt, failK: c.FailK, unit: U}
 		db := sql.OpenDB(c16bConnector{fake})
@@ -377,6 +391,13 @@ func c16bInterp(t *testing.T, c c16bCase) (v kit.Verdict) {
 		// connection may by then be executing (sleeping in) another statement - a mutex wait across
 		// virtual time would freeze the bubble (harness artefact)
 		db.SetMaxIdleConns(0)
+		if c.BadNew > 0 {
+			cl["NewBulkInserter-malformed-statement"] = true
+			if b, err := sqlx.NewBulkInserter(sqlx.NewConnFromDB(db), c16bMalformed[(c.BadNew-1)%len(c16bMalformed)]); err == nil && b != nil {
+				unspecified = true // accepted: unspecified, the case is not judged
+				return
+			}
+		}
 		bi, err := sqlx.NewBulkInserter(sqlx.NewConnFromDB(db), c16bVariants[c.V0].text())
 		if err != nil {
 			failf("NewBulkInserter: %v", err)
@@ -452,6 +473,35 @@ func c16bInterp(t *testing.T, c c16bCase) (v kit.Verdict) {
 							imu.Unlock()
 							seq++
 						}
+					case "updbad":
+						// a statement the inserter refuses: the statement in force stays in force, pending rows
+						// stay pending (no internal Flush), every row is still executed exactly once
+						imu.Lock()
+						cl["UpdateStmt-malformed-statement"] = true
+						imu.Unlock()
+						if err := bi.UpdateStmt(c16bMalformed[e.V%len(c16bMalformed)]); err == nil {
+							umu.Lock()
+							unspecified = true
+							umu.Unlock()
+							return
+						}
+					case "insbad":
+						// wrong number of arguments: Insert reports an error and hands nothing to the executor
+						var err error
+						if e.V == 0 {
+							err = bi.Insert(i*10000, g)
+						} else {
+							err = bi.Insert(i*10000, g, 0, "t", "surplus")
+						}
+						imu.Lock()
+						cl["Insert-wrong-arity"] = true
+						imu.Unlock()
+						if err == nil {
+							umu.Lock()
+							unspecified = true
+							umu.Unlock()
+							return
+						}
 					case "flush":
 						bi.Flush()
 					case "uod":
@@ -496,6 +546,12 @@ func c16bInterp(t *testing.T, c c16bCase) (v kit.Verdict) {
 		time.Sleep(13*c16bInterval + time.Duration(3*maxLat)*U)
 
 		// ---- oracle
+		umu.Lock()
+		skip := unspecified
+		umu.Unlock()
+		if skip {
+			return
+		}
 		fake.mu.Lock()
 		defer fake.mu.Unlock()
 		where := map[int]int{}
@@ -662,12 +718,16 @@ func c16bInterp(t *testing.T, c c16bCase) (v kit.Verdict) {
 		v.Classes = append(v.Classes, k)
 	}
 	sort.Strings(v.Classes)
+	if unspecified {
+		v.Excluded, v.NonTrivial = true, false
+		v.Classes = append(v.Classes, "malformed-input-accepted (unspecified, panics/hangs only)")
+	}
 	switch {
-	case fail != "":
+	case fail != "" && !unspecified:
 		v.Fail = fail
 	case res.Hang:
 		v.Fail = "hang: " + res.Raw
-	case res.Leak:
+	case res.Leak && !unspecified:
 		v.Fail = "leak: 13 s after the final Flush a goroutine (the background flusher) is still alive at bubble exit"
 	case res.Panic != "":
 		v.Fail = "panic: " + res.Panic
@@ -685,11 +745,22 @@ func c16bGen(rt *rapid.T) c16bCase {
 	ng := rapid.IntRange(1, 4).Draw(rt, "ng")
 	n := rapid.IntRange(1, 24).Draw(rt, "nev")
 	big := rapid.IntRange(0, 7).Draw(rt, "big") == 0 // cases that reach the 1000-row threshold
+	bad := rapid.IntRange(0, 4).Draw(rt, "bad") == 0 // malformed statements / calls that the inserter must refuse without losing a row
+	if bad && rapid.Bool().Draw(rt, "badnew") {
+		c.BadNew = 1 + rapid.IntRange(0, len(c16bMalformed)-1).Draw(rt, "badnewv")
+	}
 	for i := 0; i < n; i++ {
 		e := c16bEv{G: rapid.IntRange(0, ng-1).Draw(rt, "g")}
 		e.K = rapid.SampledFrom([]string{"insert", "insert", "insert", "insert", "insert", "insert", "flush", "uod", "upd"}).Draw(rt, "k")
 		if e.K == "upd" {
 			e.V = rapid.IntRange(0, len(c16bVariants)-1).Draw(rt, "v")
+		}
+		if bad && rapid.IntRange(0, 3).Draw(rt, "badev") == 0 {
+			if rapid.Bool().Draw(rt, "badkind") {
+				e.K, e.V = "updbad", rapid.IntRange(0, len(c16bMalformed)-1).Draw(rt, "badv")
+			} else {
+				e.K, e.V = "insbad", rapid.IntRange(0, 1).Draw(rt, "arity")
+			}
 		}
 		switch rapid.IntRange(0, 9).Draw(rt, "gapclass") {
 		case 0, 1, 2, 3, 4:
